@@ -241,7 +241,25 @@ func runSpec(r *core.Run, rtl bool) int {
 		}
 		prof := specProfile(rng, icCapable, rtl)
 		g := gen.NewG(rng, prof)
-		pat := g.Random(envOf(opts), false)
+		var pat *gen.Pattern
+		if i%5 == 4 {
+			// a shape template (search modes, rewrite side conditions) when it lies inside the fragment
+			t := &gen.T{R: rng, Let: prof.Letters}
+			for tries := 0; tries < 8 && pat == nil; tries++ {
+				k := rng.Intn(len(gen.TemplateNames))
+				root := t.Template(k)
+				if !gen.FragmentOK(root) {
+					continue
+				}
+				if p := gen.Finish(root, envOf(opts), false, gen.PrintOpts{}); p != nil {
+					pat = p
+					l.Count("template_"+gen.TemplateNames[k], 1)
+				}
+			}
+		}
+		if pat == nil {
+			pat = g.Random(envOf(opts), false)
+		}
 		if !r.ClaimPattern(fmt.Sprintf("%d/%s", opts, pat.Src)) {
 			l.Count("duplicate_patterns", 1)
 			return
